@@ -28,6 +28,8 @@
 #include <kernel/solver/multigrid.hpp>
 #include <control/domain/parti_domain_control.hpp>
 #include <control/scalar_basic.hpp>
+#include <control/asm/gate_asm.hpp>
+#include <control/asm/muxer_asm.hpp>
 #include <cstdio>
 #include <cmath>
 #include <sstream>
@@ -259,6 +261,118 @@ namespace C13
       TVec tw(vw1.local().clone(), vw2.local().clone());
       gate_t.sync_0(tv);
       out.put("x_tup_dot", gate_t.dot(tv, tw));
+    }
+
+    // three-field tuple (blocked-2 / scalar / scalar, as velocity / pressure / stress in control/stokes_3field.hpp):
+    // gate built by Control::Asm::build_gate_tuple from a blocked and two scalar gates
+    typedef LAFEM::DenseVectorBlocked<DataType, IndexType, 2> BVec2;
+    typedef LAFEM::TupleVector<BVec2, LocalSystemVector, LocalSystemVector> TVec3;
+    typedef LAFEM::TupleMirror<MirrorType, MirrorType, MirrorType> TMir3;
+    auto mk3 = [](Index n) { return TVec3(BVec2(n), LocalSystemVector(n), LocalSystemVector(n)); };
+    auto fill3 = [](TVec3& t, const LocalSystemVector& a, const LocalSystemVector& b, const LocalSystemVector& c, DataType fac)
+    {
+      const Index n = a.size();
+      auto* e0 = t.template at<0>().elements();
+      DataType* e1 = t.template at<1>().elements();
+      DataType* e2 = t.template at<2>().elements();
+      const DataType* pa = a.elements(); const DataType* pb = b.elements(); const DataType* pc = c.elements();
+      for(Index i(0); i < n; ++i)
+      {
+        e0[i][0] = pa[i]; e0[i][1] = fac * pb[i];
+        e1[i] = pc[i];
+        e2[i] = pa[i] + pc[i];
+      }
+    };
+    {
+      Global::Gate<BVec2, MirrorType> gate_b;
+      gate_b.convert(gate, BVec2(nloc));
+      Global::Gate<TVec3, TMir3> gate_3;
+      Control::Asm::build_gate_tuple(gate_3, gate_b, gate, gate);
+      LocalSystemVector y_type0(nloc);
+      mat_trap.local().apply(y_type0, vx.local());
+      TVec3 tv = mk3(nloc);
+      TVec3 tw = mk3(nloc);
+      fill3(tv, b_type0, b_type0, y_type0, -3.0);          // type-0 data
+      fill3(tw, vw1.local(), vw2.local(), vx.local(), 1.0); // type-1 weights
+      gate_3.sync_0(tv);
+      out.put("x_tup3_dot", gate_3.dot(tv, tw));
+      out.put("x_tup3_ndofs", gate_3.get_num_global_dofs());
+      TVec3 tc = tw.clone();
+      gate_3.sync_1(tc);
+      tc.axpy(tw, -1.0);
+      out.put("x_tup3_s1_diff", gate_3.max(tc.max_abs_element()));
+    }
+
+    // Muxer::join / split (+ join_send / split_recv) for the three-field tuple on every layer change:
+    // the muxer is built by Control::Asm::build_muxer_tuple from a blocked and two scalar muxers
+    {
+      double split_diff = 0.0, join_diff = 0.0;
+      Index mux_used = 0u;
+      for(Index i(0); (i < domain.size_physical()) && ((i+1) < domain.size_virtual()); ++i)
+      {
+        auto& mux_s = system_levels.at(i)->coarse_muxer_sys;
+        if(!mux_s.is_child())
+          continue;
+        const auto& vlvl = domain.at(i+1);
+        const Index nc = mux_s.get_parent_mirror().size();
+        Global::Muxer<BVec2, MirrorType> mux_b;
+        mux_b.convert(mux_s, BVec2(nc));
+        Global::Muxer<TVec3, TMir3> mux_3;
+        Control::Asm::build_muxer_tuple(mux_3, mk3(nc), mux_b, mux_s, mux_s);
+        ++mux_used;
+        // child side: nodal interpolation on the child patch
+        LocalSystemVector cx(nc), cw1(nc), cw2(nc);
+        Assembly::Interpolator::project(cx, fx, vlvl.level_c().space);
+        Assembly::Interpolator::project(cw1, fw1, vlvl.level_c().space);
+        Assembly::Interpolator::project(cw2, fw2, vlvl.level_c().space);
+        TVec3 c_ref = mk3(nc);
+        fill3(c_ref, cx, cw1, cw2, 1.0);
+        TVec3 c_got = c_ref.clone();
+        c_got.format(-7.0);
+        if(mux_s.is_parent())
+        {
+          const Index np = mux_s.get_child_mirrors().front().size();
+          LocalSystemVector px(np), pw1(np), pw2(np);
+          Assembly::Interpolator::project(px, fx, vlvl.level_p().space);
+          Assembly::Interpolator::project(pw1, fw1, vlvl.level_p().space);
+          Assembly::Interpolator::project(pw2, fw2, vlvl.level_p().space);
+          TVec3 p_ref = mk3(np);
+          fill3(p_ref, px, pw1, pw2, 1.0);
+          // split: every child must receive the restriction of the parent vector = its own interpolation
+          mux_3.split(c_got, p_ref);
+          // join: the parent receives the sum over all children containing the DOF
+          TVec3 p_got = p_ref.clone();
+          p_got.format(-7.0);
+          mux_3.join(c_ref, p_got);
+          std::vector<DataType> cnt(np, 0.0);
+          for(const auto& cm : mux_s.get_child_mirrors())
+            for(Index k(0); k < cm.num_indices(); ++k)
+              cnt[cm.indices()[k]] += 1.0;
+          LocalSystemVector pcnt(np);
+          for(Index k(0); k < np; ++k) pcnt.elements()[k] = cnt[k];
+          TVec3 p_exp = mk3(np);
+          TVec3 p_cnt = mk3(np);
+          fill3(p_cnt, pcnt, pcnt, pcnt, 1.0);
+          p_cnt.template at<2>().copy(pcnt);
+          p_exp.component_product(p_ref, p_cnt);
+          p_got.axpy(p_exp, -1.0);
+          join_diff = Math::max(join_diff, double(p_got.max_abs_element()));
+        }
+        else
+        {
+          mux_3.split_recv(c_got);
+          mux_3.join_send(c_ref);
+        }
+        c_got.axpy(c_ref, -1.0);
+        split_diff = Math::max(split_diff, double(c_got.max_abs_element()));
+      }
+      double v[2] = {split_diff, join_diff}, w[2] = {0.0, 0.0};
+      comm.allreduce(v, w, std::size_t(2), Dist::op_max);
+      Index mu = 0u;
+      comm.allreduce(&mux_used, &mu, std::size_t(1), Dist::op_sum);
+      out.put("x_mux3_split_diff", w[0]);
+      out.put("x_mux3_join_diff", w[1]);
+      out.put("p_mux3_used", mu);
     }
 
     // ---------------------------------------------------------------------------------------------------------------
